@@ -2,12 +2,24 @@
 """prints the prompt for a seeding sub-agent: only the property text and a scratch worktree, nothing from /verif"""
 import json, sys
 pid = sys.argv[1]
+rnd = int(sys.argv[2]) if len(sys.argv) > 2 else 1
 for l in open('/verif/properties.jsonl'):
     p = json.loads(l)
     if p['id'] == pid:
         break
-wt = "/tmp/seed-%s" % pid
-out = "/tmp/seed-%s-out" % pid
+wt = "/tmp/seed-%s" % pid if rnd == 1 else "/tmp/seed%d-%s" % (rnd, pid)
+out = wt + "-out"
+import glob, os
+avoid = ""
+if rnd > 1:
+    prev = []
+    for f in sorted(glob.glob('/verif/seeded/%s-*/meta.json' % pid)):
+        try:
+            m = json.load(open(f)); prev.append("- " + m.get("summary", "")[:260].replace("\n", " "))
+        except Exception: pass
+    if prev:
+        avoid = "\n\nOther engineers have ALREADY delivered the following changes for this property; yours must use DIFFERENT mechanisms and different code sites (do not produce variants of these):\n" + "\n".join(prev) + "\n\nAim for subtler changes than those: ones that need TWO OR MORE conditions at the same time (for example a CPU dispatch tier AND a length residue class, a particular call history AND a particular size, an aliasing/capacity layout of the arguments AND an option), or that corrupt state which only a LATER call observes, or that only affect a rarely used but exported entry point, option or encoding variant of the property's API."
+
 print(f"""You are a careful adversarial engineer helping to evaluate a verification tool. You get a scratch git worktree of the Go library github.com/emmansun/gmsm (Chinese ShangMi cryptography: SM2/SM3/SM4/SM9/ZUC, cipher modes, DRBG, X.509/PKCS codecs) at {wt}. Work ONLY inside {wt} and {out} (create it). Do NOT read or touch /verif, /repo or any other directory; do not use the network (there is none). Every shell call: `cd {wt} && export GOFLAGS=-mod=mod GOPROXY=off GOSUMDB=off GOTOOLCHAIN=local`.
 
 The library is supposed to satisfy this property:
@@ -15,7 +27,7 @@ The library is supposed to satisfy this property:
   TITLE: {p['title']}
   STATEMENT: {p['statement']}
   QUANTIFIED OVER: {p['quantifier']['text']}
-  RELEVANT FILES: {', '.join(p['anchors']['files'])}
+  RELEVANT FILES: {', '.join(p['anchors']['files'])}{avoid}
 
 Your task: produce TWO independent, realistic changes to the library's NON-test source (each a separate patch against the worktree's HEAD) that each BREAK this property while the code still compiles and the repository's existing test suite still passes. Think of the kind of slip a maintainer could plausibly make in a refactoring or optimisation (off-by-one in a bulk/tail loop threshold, wrong carry, stale state after reset, a cursor advanced too early, a lock or sync.Once replaced by a plain check, a scratch buffer hoisted to shared scope, a bounds or range check loosened, a branch taken for the wrong residue class, a cached value not invalidated, …). Each change must need something SPECIFIC to manifest — a particular length class or residue, a particular call sequence/history, a particular CPU dispatch tier (selectable with GODEBUG=cpu.avx2=off and similar, or -tags purego), a particular interleaving, a fault at a particular point, an unusual input, or two cooperating sites that each look fine alone — not something ordinary use or the existing tests would expose at once. The two changes should use different mechanisms and touch different code paths. Prefer small patches (1-15 changed lines).
 
